@@ -446,7 +446,7 @@ func VerifC15_KRfcDate() {
 func VerifC15_KRfcOffset() {
 	b := []byte("2024-06-15T12:30:45+00:00")
 	var idx []int
-	if vndBool("minutes") {
+	if vParam("minutes", 1) == 1 && vndBool("minutes") {
 		idx = []int{22, 23, 24}
 		b[19] = "+-"[vndChoice("sign", 2)]
 		b[20], b[21] = '0', '7'
